@@ -18,7 +18,7 @@ RULE = ('cases = every expression tree of depth <= 2 (thorough: 3 with a reduced
         'each evaluated on a 14-point separation lattice in (0, 30] (+ r = 0 where the energy itself evaluates there); oracle: '
         'hasattr(deriv/deriv2) => equals the reference jets; "fallback for that component only" decided behaviourally with '
         'counting leaves; non-trivial = tree with >= 1 combinator or a leaf with non-zero curvature')
-RULE += "; every built-in form over the C06 parameter lattice at leaf level; shared sub-expressions (a composed potential used as an operand after evaluation); powers whose base is exactly zero on the probe; (f^2)^0.5-style powers of powers; multi-range potentials with a default_value plateau; the public helpers gradient() / deriv() / num_deriv() with the caller's step h"
+RULE += "; every built-in form over the C06 parameter lattice at leaf level; shared sub-expressions (a composed potential used as an operand after evaluation); powers whose base is exactly zero on the probe; (f^2)^0.5-style powers of powers; multi-range potentials with a default_value plateau; the public helpers gradient() / deriv() / num_deriv() with the caller's step h; pow() with three / four operands; powers (any positive constant exponent) of a base that is identically zero over an interval; value / deriv / deriv2 of 12 potential functions called with keywords in other orders, through functools.partial"
 ASSUMPTIONS = [
     'reference jets (forward-mode AD of the documented formulas) are exact derivatives',
     'tolerances: analytic 1e-9 x abs-propagated scale; one numerical level 50*eps*scale/h; numerical derivative of a numerical derivative 200*eps*scale/h^2 (h = 1e-6, documented fallback)',
@@ -137,6 +137,9 @@ def cases(tier):
         for how in ('subclass', 'instance-attributes'):
             out.append(dict(route='zbl_coeffs', coeffs=coeffs, how=how))
     out.append(dict(route='zbl_interleaved'))
+    # the derivative methods of the potential functions called with keyword arguments (documented parameter names) in other orders
+    for fname in ('buck', 'bornmayer', 'morse', 'lj', 'coul', 'hbnd', 'exponential', 'zbl', 'sqrt', 'constant', 'exp_spline', 'tang_toennies'):
+        out.append(dict(route='kwderiv', f=fname))
     # a power with a constant exponent >= 1 (>= 2 for the curvature) is differentiable where its base is exactly zero
     for base in ('poly_root', 'root*morse', 'root^2'):
         for e in (1, 2, 3, 4, 2.0, 2.5, 3.5, 1.0, 1.5):
@@ -489,6 +492,42 @@ def run_pow_flat_zero(case):
     return dict(outcome='ok:pow_flat_zero' if not viol else 'violation', nontrivial=True, evals=n, violations=viol)
 
 
+KW_PARAMS = {'buck': (1000.0, 0.3, 32.0), 'bornmayer': (850.0, 0.35), 'morse': (1.8, 2.0, 0.6), 'lj': (0.2, 2.5), 'coul': (2.4, -1.2), 'hbnd': (120.0, 35.0), 'exponential': (3.0, 2.5),
+             'zbl': (14, 8), 'sqrt': (0.3,), 'constant': (2.5,), 'exp_spline': (0.7, -0.9, 0.01, 0.002, 0.0, 0.0, 0.05), 'tang_toennies': (41.96, 2.388, 1.461, 14.11, 183.6)}
+
+
+def run_kwderiv(case):
+    import inspect, functools
+    import atsim.potentials.potentialfunctions as pf
+    f = getattr(pf, case['f'])
+    p = KW_PARAMS[case['f']]
+    names = [q.name for q in inspect.signature(f).parameters.values() if q.kind == q.POSITIONAL_OR_KEYWORD][1:]
+    viol, n = [], 0
+    if len(names) != len(p):
+        return dict(outcome='skip', nontrivial=False, evals=0, violations=[])
+    items = list(zip(names, p))
+    orders = {'reversed': dict(items[::-1]), 'rotated': dict(items[1:] + items[:1])}
+    for which in ('__call__', 'deriv', 'deriv2'):
+        if which != '__call__' and not hasattr(f, which):
+            continue
+        g = f if which == '__call__' else getattr(f, which)
+        for r in (0.9, 1.7, 3.1):
+            want = g(r, *p)
+            for oname, kw in orders.items():
+                for how, got in (('keywords %s' % oname, g(r, **kw)), ('functools.partial, keywords %s' % oname, functools.partial(g, **kw)(r)), ('r by keyword too, %s' % oname, g(**dict(kw, r=r)))):
+                    n += 1
+                    if got != want:
+                        viol.append(dict(sig='keyword-call-differs:%s' % which, msg='%s.%s(%r, %s) [%s] = %r, the positional call gives %r' % (case['f'], which, r, kw, how, got, want), detail={}))
+                        break
+                if viol:
+                    break
+            if viol:
+                break
+        if viol:
+            break
+    return dict(outcome='ok:kwderiv' if not viol else 'violation', nontrivial=True, evals=n, violations=viol)
+
+
 def run_util(case):
     import atsim.potentials as ap
     L = dict((n, it) for n, it, _l in leaves())
@@ -602,6 +641,8 @@ def run_case(case):
         return run_util(case)
     if case['route'] == 'pow_zero':
         return run_pow_zero(case)
+    if case['route'] == 'kwderiv':
+        return run_kwderiv(case)
     if case['route'] == 'pow_flat_zero':
         return run_pow_flat_zero(case)
     if case['route'] == 'shared':
